@@ -171,7 +171,11 @@ func Harness_C05_malformed() {
 	err := VerifySignature(key, []byte("x"), DigitallySigned{Algorithm: SignatureAndHashAlgorithm{Hash: SHA256, Signature: ECDSA}, Signature: sig})
 	if err == nil {
 		vAssert(c05Calls == 1 && c05R.Sign() > 0 && c05S.Sign() > 0, "a pass implies the primitive accepted strictly positive r and s")
-		vAssert(n >= 8 && sig[0] == 0x30, "a pass implies a DER SEQUENCE of two INTEGERs")
+		vAssert(n >= 8 && sig[0] == 0x30 && sig[2] == 0x02, "a pass implies a DER SEQUENCE of two INTEGERs")
+		// DER level: both INTEGERs are positive as encoded (top bit of the first content octet clear)
+		l1 := int(sig[3])
+		vAssert(sig[4]&0x80 == 0, "a pass implies r is encoded as a positive INTEGER (negative encodings never verify)")
+		vAssert(4+l1+2 < n && sig[4+l1] == 0x02 && sig[4+l1+2]&0x80 == 0, "a pass implies s is encoded as a positive INTEGER")
 		vReach("accepted")
 	} else {
 		vReach("rejected")
